@@ -1,19 +1,29 @@
-"""Translator (C16): the statements of the activity-coefficient code that `Model/Gamma.lean` and `Model/Pitzer.lean`
-transcribe, read from the CURRENT source -> lean/PhreeqcVerif/Gen/GammaSrc.lean.
+"""Translator (C16): data-flow normal form of the activity-coefficient code that `Model/Gamma.lean` and
+`Model/Pitzer.lean` transcribe, read from the CURRENT source -> lean/PhreeqcVerif/Gen/GammaSrc.lean.
 
-For each modelled function the comment-free, whitespace-free text of every statement that assigns one of the modelled
-quantities is emitted in source order (with whatever `case …:` label / `if (…) {` guard precedes it in the same statement):
-  * pitzer.cpp  `pitzer()` (the PITZER_LISTS variant that is compiled): LGAMMA[..], OSMOT, CSUM, F/F1/F2/F_var, GAMCLM, PHIMAC,
-                COSMOT, AW, B/B1/B2/pap, XXX, BIGZ/XX/OSUM/DI, M[..]/IPRSNT[..], lg_pitzer; `G`, `GP`; the two result lines of
-                `ETHETAS`; `calc_pitz_param`'s temperature function; `pitzer_tidy`'s ln_coef / os_coef / alpha assignments
-  * sit.cpp     `sit()`: sit_LGAMMA[..], OSMOT, F, A/AGAMMA/B/T, COSMOT, AW, XX/XI/OSUM/DI/I; `calc_sit_param`
-  * model.cpp   `gammas()`: s_x[i]->lg for the aqueous cases, the LLNL interpolation (f, a_llnl, b_llnl, bdot_llnl, ifirst,
-                ilast), log_g_co2, the clamp of mu, muhalf
-  * read.cpp    `read_species()`: every assignment to gflag / dha / dhb and the two sscanf calls
-`Properties/C16.lean` proves (by `rfl`) that these lists are the ones the models were written from; any edit of a modelled
-statement breaks that obligation (protocol P: the check then searches for a failing input with its oracles).
-Fails closed (RuntimeError) when a function is not found."""
+The functions are parsed by clang (`-Xclang -ast-dump=json`, typed AST of the translation unit as it is compiled, so
+`#if`, macros and casts are resolved) and executed *symbolically*:
+  * every local variable, hoisted sub-expression and named constant is inlined (SSA: a name stands for the operator tree
+    last assigned to it); declarations and initialisations that are overwritten before use disappear;
+  * `x += e` is `x = x + e`; chained assignments assign every target; casts and parentheses vanish (the tree keeps the order);
+  * `if` merges both branches into `ite(c, a, b)`; `switch` is expanded per label through fall-through and `break`, the labels
+    sorted; `continue` / `return` / `break` turn into guards of the statements they skip;
+  * a loop becomes, for every variable it updates, `fold(<domain>, init, per-iteration update)` with the loop variable
+    renamed `$k<depth>`, so the position of independent loops and statements does not matter;
+  * writes through `a[i]` / `a[i]->f` are `store`s on the array family, in source order per family;
+  * a file-static helper whose body is one `return` is substituted into its call sites;
+  * guards that only test a pointer for NULL and only return / continue / report an error are ignored.
+What reaches Lean is, per function, the list (sorted by name) of the operator trees of the quantities the function stores
+outside its own locals — e.g. `LGAMMA[]`, `COSMOT`, `AW`, `s_x[]->lg` per `gflag` case, `*etheta`, `$ret`.
+`Properties/C16.lean` proves (by `rfl`) that these are the trees the models were written from.
+
+Functions: pitzer(), G, GP, ETHETAS, calc_pitz_param, pitzer_tidy (ln_coef / os_coef / alpha), sit(), calc_sit_param,
+gammas() (aqueous gflag cases, LLNL block), read_species (gflag / dha / dhb per option, with the option table).
+Fails closed (RuntimeError -> protocol P) when a function or an AST shape is not recognised."""
+import concurrent.futures
+import json
 import re
+import subprocess
 from pathlib import Path
 
 import vlib
@@ -23,74 +33,847 @@ class Shape(RuntimeError):
     pass
 
 
-def strip_comments(src):
-    src = re.sub(r"/\*.*?\*/", " ", src, flags=re.S)
-    src = re.sub(r"//[^\n]*", "", src)
-    return src
+_INTERN = {}
 
 
-def function_body(src, name, occurrence=0):
-    ms = list(re.finditer(r"^" + re.escape(name) + r"\s*\(", src, re.M))
-    if len(ms) <= occurrence:
-        raise Shape(f"gen_pitzer: function {name} (occurrence {occurrence}) not found")
-    m = ms[occurrence]
-    i = src.index("{", m.end())
-    depth, j = 1, i + 1
-    while depth:
-        if src[j] == "{":
-            depth += 1
-        elif src[j] == "}":
-            depth -= 1
-        j += 1
-    return src[i + 1:j - 1]
+def T(*p):
+    """hash-consed node: structurally equal trees are the same object (`is` decides equality, DAGs stay small)"""
+    key = tuple(("#", id(x)) if isinstance(x, tuple) else x for x in p)
+    r = _INTERN.get(key)
+    if r is None:
+        r = p
+        _INTERN[key] = r
+    return r
 
 
-def statements(body, pattern):
-    """whitespace-free statements (split on ';') that contain an assignment matching `pattern`"""
-    body = re.sub(r"^\s*#.*$", "", body, flags=re.M)
-    out = []
-    rx = re.compile(pattern)
-    for st in body.split(";"):
-        t = re.sub(r"\s+", "", st)
-        if t and rx.search(t):
-            out.append(t)
-    return out
+LIBM = {"exp", "log", "log10", "sqrt", "fabs", "pow", "sscanf", "strcmp", "strstr", "snprintf", "abs", "floor", "sprintf"}
+TRUE = T("int", 1)
+FALSE = T("int", 0)
+SKIP = {"ImplicitCastExpr", "ParenExpr", "CStyleCastExpr", "CXXStaticCastExpr", "CXXFunctionalCastExpr", "ExprWithCleanups",
+        "MaterializeTemporaryExpr", "ConstantExpr", "CXXBindTemporaryExpr", "FullExpr"}
 
 
+# ------------------------------------------------------------------------------------------------------------ clang
+def clang_dump(cpp, flt):
+    cmd = ["clang++-14", "-std=gnu++17", "-fsyntax-only", "-w", "-DSWIG_SHARED_OBJ", "-DUSE_PHRQ_ALLOC",
+           f"-I{vlib.REPO}/src", f"-I{vlib.REPO}/src/phreeqcpp", f"-I{vlib.REPO}/src/phreeqcpp/common",
+           f"-I{vlib.REPO}/src/phreeqcpp/PhreeqcKeywords", "-Xclang", "-ast-dump=json", "-Xclang", f"-ast-dump-filter={flt}",
+           str(cpp)]
+    r = subprocess.run(cmd, text=True, capture_output=True, timeout=300)
+    if r.returncode:
+        raise Shape(f"gen_pitzer: clang failed on {cpp}: {r.stderr[-300:]}")
+    dec = json.JSONDecoder()
+    s, i, objs = r.stdout, 0, []
+    while True:
+        while i < len(s) and s[i] in " \n\r\t":
+            i += 1
+        if i >= len(s):
+            break
+        o, i = dec.raw_decode(s, i)
+        objs.append(o)
+    return objs
+
+
+def find_def(cpp, name, qualified=True):
+    """the definition (with body) of function `name` in the translation unit of `cpp`"""
+    objs = clang_dump(cpp, ("Phreeqc::" if qualified else "") + name)
+    for o in objs:
+        if o.get("name") == name and o.get("kind") in ("CXXMethodDecl", "FunctionDecl") and \
+                any(c.get("kind") == "CompoundStmt" for c in o.get("inner", [])):
+            return o
+    raise Shape(f"gen_pitzer: definition of {name} not found in {Path(cpp).name}")
+
+
+# ------------------------------------------------------------------------------------------------- expression helpers
+def ite(c, a, b):
+    if a is b:
+        return a
+    if c is TRUE:
+        return a
+    if c is FALSE:
+        return b
+    if a is FALSE and b is TRUE:
+        return lnot(c)
+    if a is TRUE and b is FALSE:
+        return c
+    if a[0] == "ite" and a[1] is c:
+        a = a[2]
+    if b[0] == "ite" and b[1] is c:
+        b = b[3]
+    if c[0] == "un" and c[1] == "!":
+        return ite(c[2], b, a)
+    if a is b:
+        return a
+    return T("ite", c, a, b)
+
+
+def _flat(e, out):
+    if e[0] == "bin" and e[1] == "&&":
+        _flat(e[2], out)
+        _flat(e[3], out)
+    else:
+        out.append(e)
+
+
+def conj(items):
+    """conjunction in canonical form: flattened, without duplicates, sorted by text; `x && !x` and `x && !(x && ..)` are
+    simplified (guards only — the conjuncts are side-effect free conditions)"""
+    parts = []
+    for it in items:
+        _flat(it, parts)
+    changed = True
+    while changed:
+        changed = False
+        uniq = []
+        for x in parts:
+            if x is TRUE or any(x is y for y in uniq):
+                continue
+            uniq.append(x)
+        parts = uniq
+        if any(x is FALSE for x in parts):
+            return FALSE
+        for x in parts:
+            if x[0] == "un" and x[1] == "!":
+                inner = []
+                _flat(x[2], inner)
+                rest = [q for q in inner if not any(q is y for y in parts)]
+                if not rest:
+                    return FALSE
+                if len(rest) < len(inner):
+                    parts = [y for y in parts if y is not x] + [lnot(conj(rest))]
+                    changed = True
+                    break
+    if not parts:
+        return TRUE
+    parts.sort(key=render)
+    r = parts[0]
+    for x in parts[1:]:
+        r = T("bin", "&&", r, x)
+    return r
+
+
+def land(a, b):
+    return conj([a, b])
+
+
+def bmerge(c, a, b):
+    """(c && a) || (!c && b) for the control flags"""
+    if a is b:
+        return a
+    if a is FALSE:
+        return conj([lnot(c), b])
+    if b is FALSE:
+        return conj([c, a])
+    return ite(c, a, b)
+
+
+def lnot(a):
+    if a is TRUE:
+        return FALSE
+    if a is FALSE:
+        return TRUE
+    if a[0] == "un" and a[1] == "!":
+        return a[2]
+    return T("un", "!", a)
+
+
+def _render_with(e, render):
+    k = e[0]
+    if k == "num":
+        return repr(e[1])
+    if k == "int":
+        return str(e[1])
+    if k == "sym":
+        return e[1]
+    if k == "str":
+        return "'" + e[1] + "'"
+    if k == "bin":
+        return "(" + render(e[2]) + " " + e[1] + " " + render(e[3]) + ")"
+    if k == "un":
+        return e[1] + render(e[2])
+    if k == "call":
+        return e[1] + "(" + ", ".join(render(a) for a in e[2:]) + ")"
+    if k == "idx":
+        return render(e[1]) + "[" + render(e[2]) + "]"
+    if k == "mem":
+        return render(e[1]) + e[2] + e[3]
+    if k == "deref":
+        return "*" + render(e[1])
+    if k == "addr":
+        return "&" + render(e[1])
+    if k == "ite":
+        return "ite(" + render(e[1]) + ", " + render(e[2]) + ", " + render(e[3]) + ")"
+    if k == "fam":
+        return e[1]
+    if k == "prev":
+        return "$prev" + str(e[2]) + "{" + e[1] + "}"
+    if k == "store":
+        return "store(" + render(e[1]) + ", " + render(e[2]) + " := " + render(e[3]) + ")"
+    if k == "sel":
+        return "sel(" + render(e[1]) + ", " + render(e[2]) + ")"
+    if k == "fold":
+        return ("fold(" + e[1] + "; init " + render(e[2]) + "; step " + render(e[3]) +
+                ("; exit " + render(e[4]) if e[4] is not FALSE else "") + ")")
+    if k == "switch":
+        return ("switch(" + render(e[1]) + "; " + "; ".join(c[1] + " -> " + render(c[2]) for c in e[3:]) +
+                "; else -> " + render(e[2]) + ")")
+    if k == "ix":
+        return "[" + "; ".join(render(i) for i in e[1:]) + "]"
+    if k == "seq":
+        return "[" + " ;; ".join(render(a) for a in e[1:]) + "]"
+    raise Shape(f"gen_pitzer: cannot render {k}")
+
+
+def render(e):
+    return _render_with(e, render)
+
+
+ATOMS = {"num", "int", "sym", "str", "fam", "prev"}
+
+
+def render_shared(root):
+    """rendering of a DAG: a sub-tree used more than once is named `t<n>` (numbered in order of first completion of a
+    left-to-right depth-first walk, so the text is a function of the tree alone) and defined once in front"""
+    uses = {}
+    order = []
+    stack = [(root, False)]
+    while stack:
+        x, done = stack.pop()
+        if done:
+            order.append(x)
+            continue
+        if id(x) in uses:
+            uses[id(x)] += 1
+            continue
+        uses[id(x)] = 1
+        stack.append((x, True))
+        for y in reversed([y for y in x if isinstance(y, tuple)]):
+            stack.append((y, False))
+    names = {}
+    defs = []
+    memo = {}
+
+    def r(e):
+        if id(e) in names:
+            return names[id(e)]
+        return r1(e)
+
+    def r1(e):
+        if id(e) in memo:
+            return memo[id(e)]
+        v = _render_with(e, r)
+        memo[id(e)] = v
+        return v
+    for x in order:          # post-order: children before parents
+        if x is root:
+            continue
+        if uses[id(x)] > 1 and x[0] not in ATOMS and len(x) > 1:
+            text = r1(x)
+            if len(text) > 12:
+                names[id(x)] = f"t{len(defs) + 1}"
+                defs.append(f"t{len(defs) + 1} := {text}")
+    body = r1(root)
+    return "; ".join(defs + [body])
+
+
+# -------------------------------------------------------------------------------------------------- symbolic executor
+class Exec:
+    def __init__(self, cpp, fdecl):
+        self.cpp = cpp
+        self.locals = set()
+        self.depth = 0
+        self.brk = []            # stack of 'loop' / 'switch'
+        self.helpers = {}
+        self.writes = None       # set collecting written keys (first pass over a loop body)
+        self.fdecl = fdecl
+
+    # ---- lvalues: (key, family?, indices)
+    def lval(self, n, env):
+        k = n["kind"]
+        if k in SKIP:
+            return self.lval(self.kids(n)[0], env)
+        if k == "DeclRefExpr":
+            return (n["referencedDecl"]["name"], None, T("ix"))
+        if k == "MemberExpr":
+            base = self.kids(n)[0]
+            if self.is_this(base):
+                return (n["name"], None, T("ix"))
+            bk, fam, idx = self.lval(base, env)
+            op = "->" if n.get("isArrow") else "."
+            return (bk + op + n["name"], (fam + op + n["name"]) if fam else None, idx)
+        if k == "UnaryOperator" and n.get("opcode") == "*":
+            bk, fam, idx = self.lval(self.kids(n)[0], env)
+            return ("*" + bk, ("*" + fam) if fam else None, idx)
+        if k in ("ArraySubscriptExpr", "CXXOperatorCallExpr"):
+            ch = self.kids(n)
+            if k == "CXXOperatorCallExpr":
+                ch = ch[1:]
+            bk, fam, idx = self.lval(ch[0], env)
+            i = self.ev(ch[1], env)
+            return (bk + "[" + render(i) + "]", (fam or bk) + "[]", T("ix", *idx[1:], i))
+        raise Shape(f"gen_pitzer: unsupported lvalue {k}")
+
+    def kids(self, n):
+        return [c for c in n.get("inner", []) if c]
+
+    def is_this(self, n):
+        while n["kind"] in SKIP:
+            n = self.kids(n)[0]
+        return n["kind"] == "CXXThisExpr"
+
+    def read(self, key, fam, idx, env):
+        if fam is None:
+            if key in env:
+                return env[key]
+            return T("sym", key)
+        if fam in env:
+            arr = env[fam]
+            # sel(store(a, i, v), i) = v
+            if arr[0] == "store" and arr[2] is idx:
+                return arr[3]
+            if arr[0] == "fam":
+                return T("sym", key)
+            return T("sel", arr, idx)
+        return T("sym", key)
+
+    def guard(self, env):
+        """condition under which the statement being executed runs: not returned, not continued / broken out, switch alive"""
+        return conj([env.get("$flive", TRUE), env.get("$live", TRUE), env.get("$sw", TRUE)])
+
+    def lguard(self, env):
+        """the same without the function-level part: a local scalar is dead once the function has returned, so whether a
+        write to it happened after a `return` cannot be observed"""
+        return conj([env.get("$live", TRUE), env.get("$sw", TRUE)])
+
+    def write(self, key, fam, idx, val, env):
+        g = self.guard(env)
+        if g is FALSE:
+            return
+        if fam is None and key in self.locals:
+            g = self.lguard(env)
+        if fam is None:
+            if key not in env and key in self.locals:
+                env[key] = val           # a local that holds nothing yet: the guard cannot matter to any defined read
+            else:
+                env[key] = ite(g, val, env.get(key, T("sym", key)))
+            if self.writes is not None:
+                self.writes.add(key)
+        else:
+            arr = env.get(fam, T("fam", fam))
+            if g is not TRUE:
+                val = ite(g, val, self.read(key, fam, idx, env))
+            env[fam] = T("store", arr, idx, val)
+            if self.writes is not None:
+                self.writes.add(fam)
+
+    # ---- expressions
+    def ev(self, n, env):
+        k = n["kind"]
+        if k in SKIP:
+            return self.ev(self.kids(n)[0], env)
+        if k == "FloatingLiteral":
+            return T("num", float(n["value"]))
+        if k == "IntegerLiteral":
+            return T("int", int(n["value"]))
+        if k in ("CXXNullPtrLiteralExpr", "GNUNullExpr"):
+            return T("sym", "NULL")
+        if k == "CXXBoolLiteralExpr":
+            return TRUE if n.get("value") else FALSE
+        if k == "StringLiteral":
+            return T("str", n.get("value", "").strip('"'))
+        if k == "CharacterLiteral":
+            return T("int", int(n["value"]))
+        if k == "CXXThisExpr":
+            return T("sym", "this")
+        if k == "DeclRefExpr":
+            d = n["referencedDecl"]
+            if d.get("kind") == "EnumConstantDecl":
+                return T("sym", d["name"])
+            return self.read(d["name"], None, T("ix"), env)
+        if k in ("MemberExpr", "ArraySubscriptExpr") or (k == "UnaryOperator" and n.get("opcode") == "*"):
+            key, fam, idx = self.lval(n, env)
+            return self.read(key, fam, idx, env)
+        if k == "CXXOperatorCallExpr":
+            ch = self.kids(n)
+            callee = ch[0]
+            while callee["kind"] in SKIP:
+                callee = self.kids(callee)[0]
+            opname = callee.get("referencedDecl", {}).get("name", "")
+            if opname == "operator[]":
+                key, fam, idx = self.lval(n, env)
+                return self.read(key, fam, idx, env)
+            return T("call", opname, *[self.ev(c, env) for c in ch[1:]])
+        if k == "UnaryOperator":
+            op = n["opcode"]
+            a = self.kids(n)[0]
+            if op in ("++", "--"):
+                key, fam, idx = self.lval(a, env)
+                old = self.read(key, fam, idx, env)
+                self.write(key, fam, idx, T("bin", "+" if op == "++" else "-", old, T("int", 1)), env)
+                return old if n.get("isPostfix") else self.read(key, fam, idx, env)
+            if op == "&":
+                key, fam, idx = self.lval(a, env)
+                return T("addr", T("sym", key))
+            if op == "+":
+                return self.ev(a, env)
+            v = self.ev(a, env)
+            if op == "!":
+                return lnot(v)
+            return T("un", op, v)
+        if k == "BinaryOperator":
+            op = n["opcode"]
+            l, r = self.kids(n)
+            if op == "=":
+                v = self.ev(r, env)
+                key, fam, idx = self.lval(l, env)
+                self.write(key, fam, idx, v, env)
+                return v
+            if op == ",":
+                self.ev(l, env)
+                return self.ev(r, env)
+            return T("bin", op, self.ev(l, env), self.ev(r, env))
+        if k == "CompoundAssignOperator":
+            l, r = self.kids(n)
+            key, fam, idx = self.lval(l, env)
+            old = self.read(key, fam, idx, env)
+            v = T("bin", n["opcode"][:-1], old, self.ev(r, env))
+            self.write(key, fam, idx, v, env)
+            return v
+        if k == "ConditionalOperator":
+            c, a, b = self.kids(n)
+            return ite(self.ev(c, env), self.ev(a, env), self.ev(b, env))
+        if k in ("CallExpr", "CXXMemberCallExpr"):
+            return self.call(n, env)
+        if k == "UnaryExprOrTypeTraitExpr":
+            return T("sym", "sizeof")
+        if k in ("CXXConstructExpr", "CXXTemporaryObjectExpr"):
+            ch = self.kids(n)
+            if len(ch) == 1:
+                return self.ev(ch[0], env)
+            return T("call", "construct", *[self.ev(c, env) for c in ch])
+        if k == "CXXDefaultArgExpr":
+            return T("sym", "default")
+        if k == "InitListExpr":
+            return T("call", "init", *[self.ev(c, env) for c in self.kids(n)])
+        if k in ("CXXDeleteExpr", "CXXNewExpr", "LambdaExpr", "CXXThrowExpr"):
+            return T("sym", "$" + k)
+        if k.endswith("Expr") or k.endswith("Literal"):
+            # a kind without arithmetic meaning here (assert machinery, string objects ...): kept as an opaque node
+            return T("call", "$" + k, *[self.ev(c, env) for c in self.kids(n) if "kind" in c and
+                                        (c["kind"].endswith("Expr") or c["kind"].endswith("Literal") or c["kind"].endswith("Operator"))])
+        raise Shape(f"gen_pitzer: unsupported expression {k}")
+
+    def call(self, n, env):
+        ch = self.kids(n)
+        callee = ch[0]
+        while callee["kind"] in SKIP:
+            callee = self.kids(callee)[0]
+        args_nodes = ch[1:]
+        if callee["kind"] == "MemberExpr":
+            name = callee["name"]
+            base = self.kids(callee)[0] if self.kids(callee) else None
+            if base is not None and not self.is_this(base):
+                # method of another object: x.size(), p->Get_n() ...
+                return T("call", name, self.ev(base, env), *[self.ev(a, env) for a in args_nodes])
+            is_method = True
+        else:
+            name = callee.get("referencedDecl", {}).get("name", "?")
+            is_method = False
+        if not is_method and name not in LIBM:
+            h = self.helper(name)
+            if h is not None:
+                params, ret = h
+                sub = dict(zip(params, [self.ev(a, env) for a in args_nodes]))
+                return self.ev(ret, dict(sub))
+        args = []
+        outs = []
+        for a in args_nodes:
+            b = a
+            while b["kind"] in SKIP:
+                b = self.kids(b)[0]
+            if b["kind"] == "UnaryOperator" and b.get("opcode") == "&":
+                key, fam, idx = self.lval(self.kids(b)[0], env)
+                outs.append((len(args), key, fam, idx))
+                args.append(T("addr", T("sym", fam or key)))
+            else:
+                args.append(self.ev(a, env))
+        res = T("call", name, *args)
+        for pos, key, fam, idx in outs:
+            self.write(key, fam, idx, T("call", name + "#out" + str(pos), *[a for a in args if a[0] != "addr"]), env)
+        return res
+
+    def helper(self, name):
+        """(parameter names, return expression node) of a file-static function whose body is a single `return e;`"""
+        if name in self.helpers:
+            return self.helpers[name]
+        res = None
+        try:
+            d = find_def(self.cpp, name, qualified=False)
+            if d.get("kind") == "FunctionDecl" and d.get("storageClass") == "static":
+                params = [c["name"] for c in d.get("inner", []) if c.get("kind") == "ParmVarDecl"]
+                body = [c for c in d["inner"] if c.get("kind") == "CompoundStmt"][0]
+                st = [c for c in body.get("inner", []) if c.get("kind") != "NullStmt"]
+                if len(st) == 1 and st[0]["kind"] == "ReturnStmt":
+                    res = (params, self.kids(st[0])[0])
+        except Shape:
+            res = None
+        self.helpers[name] = res
+        return res
+
+    # ---- statements
+    def only_exits(self, n):
+        """statement consists only of return / continue / break / error reports"""
+        k = n["kind"]
+        if k == "CompoundStmt":
+            return all(self.only_exits(c) for c in self.kids(n))
+        if k in ("ReturnStmt", "ContinueStmt", "NullStmt"):
+            return True
+        if k in SKIP:
+            return self.only_exits(self.kids(n)[0])
+        if k in ("CallExpr", "CXXMemberCallExpr"):
+            c = self.kids(n)[0]
+            while c["kind"] in SKIP:
+                c = self.kids(c)[0]
+            return c.get("name", c.get("referencedDecl", {}).get("name")) in ("error_msg", "warning_msg")
+        return False
+
+    def null_test(self, n):
+        while n["kind"] in SKIP and n["kind"] != "ImplicitCastExpr":
+            n = self.kids(n)[0]
+        k = n["kind"]
+        if k == "ImplicitCastExpr":
+            return self.null_test(self.kids(n)[0])
+        if k == "BinaryOperator" and n["opcode"] in ("||", "&&"):
+            return all(self.null_test(c) for c in self.kids(n))
+        if k == "BinaryOperator" and n["opcode"] in ("==", "!="):
+            return any(self.is_null(c) for c in self.kids(n))
+        return False
+
+    def is_null(self, n):
+        if n["kind"] in ("CXXNullPtrLiteralExpr", "GNUNullExpr"):
+            return True
+        if n["kind"] == "ImplicitCastExpr" and n.get("castKind") == "NullToPointer":
+            return True
+        if n["kind"] in SKIP:
+            return self.is_null(self.kids(n)[0])
+        return False
+
+    def stmt(self, n, env):
+        if self.guard(env) is FALSE:
+            return
+        k = n["kind"]
+        if k == "CompoundStmt":
+            for c in self.kids(n):
+                self.stmt(c, env)
+        elif k == "DeclStmt":
+            for d in self.kids(n):
+                if d.get("kind") != "VarDecl":
+                    continue
+                self.locals.add(d["name"])
+                init = [c for c in self.kids(d) if "Expr" in c["kind"] or "Literal" in c["kind"] or "Operator" in c["kind"]]
+                if init:
+                    self.write(d["name"], None, T("ix"), self.ev(init[0], env), env)
+                else:
+                    env.pop(d["name"], None)
+        elif k == "NullStmt":
+            pass
+        elif k == "IfStmt":
+            ch = self.kids(n)
+            cond, then = ch[0], ch[1]
+            els = ch[2] if len(ch) > 2 else None
+            if els is None and self.null_test(cond) and self.only_exits(then):
+                return
+            c = self.ev(cond, env)
+            e1 = dict(env)
+            self.stmt(then, e1)
+            e2 = dict(env)
+            if els is not None:
+                self.stmt(els, e2)
+            for key in set(e1) | set(e2):
+                a = e1.get(key, self.initial(key))
+                b = e2.get(key, self.initial(key))
+                if key in ("$live", "$sw", "$break", "$flive"):
+                    env[key] = bmerge(c, a, b)
+                else:
+                    env[key] = a if a is b else ite(c, a, b)
+        elif k == "ReturnStmt":
+            ch = self.kids(n)
+            g = self.guard(env)
+            if ch:
+                v = self.ev(ch[0], env)
+                env["$ret"] = ite(g, v, env.get("$ret", T("sym", "$noret")))
+            env["$flive"] = land(env.get("$flive", TRUE), lnot(g))
+            if self.depth > 0:
+                env["$live"] = land(env.get("$live", TRUE), lnot(g))
+        elif k == "ContinueStmt":
+            env["$live"] = land(env.get("$live", TRUE), lnot(self.guard(env)))
+        elif k == "BreakStmt":
+            g = self.guard(env)
+            if self.brk and self.brk[-1] == "switch":
+                env["$sw"] = land(env.get("$sw", TRUE), lnot(g))
+            else:
+                env["$break"] = ite(g, TRUE, env.get("$break", FALSE))
+                env["$live"] = land(env.get("$live", TRUE), lnot(g))
+        elif k in ("ForStmt", "WhileStmt", "DoStmt"):
+            self.loop(n, env)
+        elif k == "SwitchStmt":
+            self.switch(n, env)
+        elif k in ("CallExpr", "CXXMemberCallExpr"):
+            c = self.kids(n)[0]
+            while c["kind"] in SKIP:
+                c = self.kids(c)[0]
+            nm = c.get("name", c.get("referencedDecl", {}).get("name"))
+            if nm in ("error_msg", "warning_msg", "output_msg", "log_msg"):
+                return
+            v = self.ev(n, env)
+            g = self.guard(env)
+            old = env.get("$calls", T("seq"))
+            new = T("seq", *old[1:], v) if old[0] == "seq" else T("seq", old, v)
+            env["$calls"] = ite(g, new, old)
+            if self.writes is not None:
+                self.writes.add("$calls")
+        else:
+            self.ev(n, env)
+
+    def initial(self, key):
+        if key in ("$live", "$sw", "$flive"):
+            return TRUE
+        if key == "$break":
+            return FALSE
+        if key == "$ret":
+            return T("sym", "$noret")
+        if key == "$calls":
+            return T("seq")
+        if key.endswith("[]") or "[]" in key:
+            return T("fam", key)
+        return T("sym", key)
+
+    def loop(self, n, env):
+        k = n["kind"]
+        ch = n.get("inner", [])
+        if k == "ForStmt":
+            init, _, cond, inc, body = (ch + [None] * 5)[:5]
+        elif k == "WhileStmt":
+            init, inc = None, None
+            cond, body = [c for c in ch if c][-2:]
+        else:
+            init, inc = None, None
+            body, cond = [c for c in ch if c][:2]
+        g0 = self.guard(env)
+        if init and init.get("kind"):
+            self.stmt(init, env)
+        # loop variable: the one stepped by the increment
+        var = None
+        step = ""
+        if inc and inc.get("kind"):
+            b = inc
+            while b["kind"] in SKIP:
+                b = self.kids(b)[0]
+            if b["kind"] == "UnaryOperator" and b.get("opcode") in ("++", "--"):
+                var = self.lval(self.kids(b)[0], env)[0]
+                step = b["opcode"]
+            else:
+                step = "step:" + render(self.ev(inc, dict(env)))
+        self.depth += 1
+        d = self.depth
+        kv = T("sym", f"$k{d}")
+        start = env.get(var, T("sym", var)) if var else T("sym", "-")
+        if start[0] == "ite" and start[1] is g0:
+            start = start[2]          # the value the initialisation just stored (the loop only runs when the guard holds)
+        e0 = dict(env)
+        if var:
+            e0[var] = kv
+        dom_cond = render(self.ev(cond, dict(e0))) if cond and cond.get("kind") else "true"
+        dom = f"$k{d} from {render(start)} {step} while {dom_cond}"
+        # pass 1: which variables does the body write
+        saved_w, self.writes = self.writes, set()
+        e1 = dict(e0)
+        e1["$live"] = TRUE
+        e1.pop("$break", None)
+        self.brk.append("loop")
+        locals_before = set(self.locals)
+        self.stmt(body, e1)
+        written = set(self.writes) - {"$live", "$sw", "$break"}     # control flags are per iteration, not carried
+        body_locals = self.locals - locals_before
+        # pass 2: per-iteration update in terms of the values at the start of the iteration
+        e2 = dict(e0)
+        for key in written:
+            e2[key] = T("prev", key, d)
+        e2["$live"] = TRUE
+        e2.pop("$break", None)
+        self.writes = set()
+        self.stmt(body, e2)
+        self.brk.pop()
+        self.writes = saved_w
+        self.depth -= 1
+        exitc = e2.get("$break", FALSE)
+        g = self.guard(env)
+        for key in sorted(written):
+            if key in body_locals or key == var:
+                continue
+            upd = e2.get(key, T("prev", key, d))
+            if upd is T("prev", key, d):
+                continue
+            init_v = env.get(key, self.initial(key))
+            val = T("fold", dom, init_v, upd, exitc)
+            env[key] = ite(g, val, init_v)
+            if self.writes is not None:
+                self.writes.add(key)
+        if var:
+            env[var] = T("sym", "$after-loop")
+        for key in body_locals:
+            env.pop(key, None)
+
+    def switch(self, n, env):
+        ch = self.kids(n)
+        scrut = self.ev(ch[0], env)
+        body = ch[-1]
+        items = []            # ('label', text) | ('stmt', node)
+
+        def flatten(node):
+            kk = node["kind"]
+            if kk == "CaseStmt":
+                c = self.kids(node)
+                lab = c[0]
+                while lab["kind"] in SKIP and lab["kind"] != "ConstantExpr":
+                    lab = self.kids(lab)[0]
+                inner = lab
+                while inner["kind"] in SKIP:
+                    inner = self.kids(inner)[0]
+                if inner["kind"] == "DeclRefExpr":
+                    text = inner["referencedDecl"]["name"]
+                elif inner["kind"] == "IntegerLiteral":
+                    text = inner["value"]
+                else:
+                    text = str(lab.get("value", render(self.ev(inner, {}))))
+                items.append(("label", text))
+                flatten(c[-1])
+            elif kk == "DefaultStmt":
+                items.append(("label", "default"))
+                flatten(self.kids(node)[-1])
+            else:
+                items.append(("stmt", node))
+        for c in self.kids(body):
+            flatten(c)
+        labels = [(i, t) for i, (kind, t) in enumerate(items) if kind == "label"]
+        results = {}
+        self.brk.append("switch")
+        for pos, lab in labels:
+            e = dict(env)
+            e["$sw"] = TRUE
+            for kind, node in items[pos + 1:]:
+                if kind == "stmt":
+                    self.stmt(node, e)
+            e["$sw"] = env.get("$sw", TRUE)
+            results[lab] = e
+        self.brk.pop()
+        keys = set()
+        for e in results.values():
+            keys |= set(e)
+        for key in keys:
+            if key == "$sw":
+                continue
+            base = env.get(key, self.initial(key))
+            vals = {lab: e.get(key, self.initial(key)) for lab, e in results.items()}
+            dflt = vals.pop("default", base)
+            if all(v is dflt for v in vals.values()):
+                new = dflt
+            else:
+                new = T("switch", scrut, dflt, *[T("case", l, vals[l]) for l in sorted(vals) if vals[l] is not dflt])
+            if new is not base:
+                env[key] = new
+                if self.writes is not None:
+                    self.writes.add(key)
+
+    def run(self):
+        env = {}
+        for c in self.fdecl.get("inner", []):
+            if c.get("kind") == "ParmVarDecl" and "name" in c:
+                self.locals.add(c["name"])
+        body = [c for c in self.fdecl["inner"] if c.get("kind") == "CompoundStmt"][0]
+        self.stmt(body, env)
+        out = {}
+        for key, v in env.items():
+            if key in ("$live", "$sw", "$break", "$flive"):
+                continue
+            root = re.split(r"[\[\.\-]", key.lstrip("*"))[0]
+            through = key.startswith("*") or "->" in key or "[" in key or "." in key
+            if key.startswith("$") or root not in self.locals or through:
+                if v is not self.initial(key):
+                    out[key] = v
+        return out
+
+
+def case_split(e, want):
+    """the per-label values of the first `switch` tree reached from `e` that has the wanted labels"""
+    found = {}
+    seen = set()
+    stack = [e]
+    while stack:
+        x = stack.pop()
+        if not isinstance(x, tuple) or id(x) in seen:
+            continue
+        seen.add(id(x))
+        if x and x[0] == "switch":
+            labs = {c[1]: c[2] for c in x[3:]}
+            if want & set(labs) and not found:
+                found = {l: labs.get(l, x[2]) for l in want}
+                break
+        stack.extend(y for y in x if isinstance(y, tuple))
+    return found
+
+
+def normal_forms(cpp, name, keep=None, drop=None):
+    ex = Exec(cpp, find_def(cpp, name))
+    out = ex.run()
+    res = {}
+    for key, v in out.items():
+        if keep is not None and not re.search(keep, key):
+            continue
+        if drop is not None and re.search(drop, key):
+            continue
+        res[key] = v
+    return res
+
+
+# ------------------------------------------------------------------------------------------------------------- tables
 def extract():
     root = vlib.REPO / "src" / "phreeqcpp"
-    pz = strip_comments((root / "pitzer.cpp").read_text(errors="replace"))
-    st = strip_comments((root / "sit.cpp").read_text(errors="replace"))
-    md = strip_comments((root / "model.cpp").read_text(errors="replace"))
-    rd = strip_comments((root / "read.cpp").read_text(errors="replace"))
-    lists_defined = re.search(r"^#define\s+PITZER_LISTS", pz, re.M) is not None
-    if not lists_defined:
-        raise Shape("gen_pitzer: PITZER_LISTS is not defined; the other pitzer() variant would be compiled")
-    asg = r"(\+=|-=|(?<![=!<>])=(?!=))"
+    pz, st, md, rd = root / "pitzer.cpp", root / "sit.cpp", root / "model.cpp", root / "read.cpp"
+    jobs = {
+        "pitzerNF": (pz, "pitzer", None, r"^(\$calls|CONV)$"),
+        "gNF": (pz, "G", None, None),
+        "gpNF": (pz, "GP", None, None),
+        "ethetasNF": (pz, "ETHETAS", None, r"^\$calls$"),
+        "calcParamNF": (pz, "calc_pitz_param", r"^pz_ptr->p$", None),
+        "sitNF": (st, "sit", None, r"^\$calls$"),
+        "calcSitParamNF": (st, "calc_sit_param", r"^pz_ptr->p$", None),
+        "gammasNF": (md, "gammas", r"^(s_x\[\]->lg|a_llnl|b_llnl|bdot_llnl|\$ret)$", None),
+        "tidyNF": (pz, "pitzer_tidy", r"ln_coef|os_coef|->alpha", None),
+        "readSpeciesNF": (rd, "read_species", r"gflag|->dha|->dhb", None),
+    }
+
+    def one(item):
+        tab, (cpp, fn, keep, drop) = item
+        return tab, normal_forms(cpp, fn, keep, drop)
+    with concurrent.futures.ThreadPoolExecutor(max_workers=8) as pool:
+        res = dict(pool.map(one, jobs.items()))
     tabs = {}
-    tabs["pitzerStmts"] = statements(
-        function_body(pz, "pitzer", 1),
-        r"(LGAMMA\[\w+\]|OSMOT|CSUM|F_var|\bF\b|F1|F2|GAMCLM|PHIMAC|COSMOT|\bAW\b|\bB\b|B1|B2|pap|XXX|BIGZ|\bXX\b|OSUM|\bDI\b|M\[\w+\]|IPRSNT\[\w+\]|lg_pitzer|CONV|->etheta|->ethetap)" + asg)
-    tabs["gStmts"] = statements(function_body(pz, "G"), r"\bd" + asg)
-    tabs["gpStmts"] = statements(function_body(pz, "GP"), r"\bd" + asg)
-    tabs["ethetasStmts"] = statements(function_body(pz, "ETHETAS"), r"(\*etheta|\*ethetap|XCON|\bZZ\b|XJK|XJJ|XKK)" + asg)
-    tabs["calcParamStmts"] = statements(function_body(pz, "calc_pitz_param"), r"\bparam" + asg)
-    tabs["tidyStmts"] = statements(function_body(pz, "pitzer_tidy"), r"(->ln_coef\[\w+\]|->os_coef|->alpha|\border)" + asg)
-    tabs["sitStmts"] = statements(
-        function_body(st, "sit"),
-        r"(sit_LGAMMA\[\w+\]|OSMOT|\bF\b|\bA\b|AGAMMA|\bB\b|\bT\b|COSMOT|\bAW\b|\bXX\b|\bXI\b|OSUM|\bDI\b|\bI\b|sit_M\[\w+\]|lg_pitzer)" + asg)
-    tabs["calcSitParamStmts"] = statements(function_body(st, "calc_sit_param"), r"\bparam" + asg)
-    g = function_body(md, "gammas")
-    cut = g.find("case4:") if False else None
-    allg = statements(g, r"(s_x\[i\]->lg|\bf\b|a_llnl|b_llnl|bdot_llnl|ifirst|ilast|log_g_co2|\bmu\b|muhalf|\ba\b|\bb\b)" + asg)
-    # the exchange (case 4) and surface (case 6) branches are outside the model: keep the aqueous statements only
-    tabs["gammasStmts"] = [t for t in allg if "equiv" not in t and "alk" not in t and "coef*" not in t and "primary" not in t
-                           and "exch_gflag" not in t]
-    tabs["readSpeciesStmts"] = statements(function_body(rd, "read_species"), r"(->gflag|->dha|->dhb|\bi)" + asg + r".*")
-    tabs["readSpeciesStmts"] = [t for t in tabs["readSpeciesStmts"] if "gflag" in t or "dha" in t or "dhb" in t]
-    for k, v in tabs.items():
-        if not v:
-            raise Shape(f"gen_pitzer: no statements recognised for {k}")
+    for tab, nf in res.items():
+        rows = {}
+        for key, v in nf.items():
+            if tab == "gammasNF" and key == "s_x[]->lg":
+                # one row per aqueous gflag case; the exchange (4) and surface (6) branches are outside the model
+                cases = case_split(v, {"0", "1", "2", "3", "5", "7", "8", "9"})
+                if len(cases) != 8:
+                    raise Shape("gen_pitzer: gammas(): the gflag switch was not recognised")
+                for lab, cv in cases.items():
+                    rows[f"s_x[]->lg | gflag {lab}"] = render_shared(cv)
+            else:
+                rows[key] = render_shared(v)
+        if not rows:
+            raise Shape(f"gen_pitzer: nothing recognised for {tab}")
+        tabs[tab] = sorted(rows.items())
     return tabs
 
 
@@ -98,13 +881,14 @@ def lean_str(s):
     return '"' + s.replace("\\", "\\\\").replace('"', '\\"') + '"'
 
 
-def render(tabs):
+def render_lean(tabs):
     out = ["/-! Generated by tools/gen_pitzer.py from src/phreeqcpp/{pitzer,sit,model,read}.cpp — do not edit.",
-           "The statements of the activity-coefficient code that Model/Gamma.lean and Model/Pitzer.lean transcribe. -/",
+           "Data-flow normal forms (operator trees of the stored quantities) of the activity-coefficient code that",
+           "Model/Gamma.lean and Model/Pitzer.lean transcribe. -/",
            "namespace PhreeqcVerif.Gen.GammaSrc", ""]
     for k, v in tabs.items():
-        out.append(f"def {k} : List String := [")
-        out.append(",\n".join("  " + lean_str(t) for t in v))
+        out.append(f"def {k} : List (String × String) := [")
+        out.append(",\n".join("  (" + lean_str(a) + ", " + lean_str(b) + ")" for a, b in v))
         out.append("]\n")
     out.append("end PhreeqcVerif.Gen.GammaSrc\n")
     return "\n".join(out)
@@ -112,7 +896,7 @@ def render(tabs):
 
 def generate(ctx=None):
     tabs = extract()
-    text = render(tabs)
+    text = render_lean(tabs)
     out = vlib.LEAN / "PhreeqcVerif" / "Gen" / "GammaSrc.lean"
     if not out.exists() or out.read_text() != text:
         out.write_text(text)
@@ -120,5 +904,10 @@ def generate(ctx=None):
 
 
 if __name__ == "__main__":
-    import json
-    print(json.dumps(generate(), indent=1))
+    import sys
+    if len(sys.argv) > 1:
+        for k, v in extract().items():
+            for a, b in v:
+                print(k, "|", a, "|", b)
+    else:
+        print(json.dumps(generate(), indent=1))
